@@ -516,6 +516,7 @@ class Ctx:
         self.size_terms = []  # integer terms that denote sizes; bounded first when searching for models
         self.quantified_assumptions = []
         self.ended = None
+        self.binders = []   # [(z3 Int var, guard term)]: inside `binding`, fresh symbols are functions of the bound variables
 
     # -- naming -------------------------------------------------------------------------------------
     def fresh_name(self, hint):
@@ -523,8 +524,29 @@ class Ctx:
         c = self.counts[hint]
         return hint if c == 1 else f"{hint}!{c}"
 
+    # -- binder scopes: evaluating the body of a quantifier / comprehension for an arbitrary bound variable -------------
+    def binding(self, var, guard):
+        """context manager: every symbol created inside is a (Skolem) function of `var` (and of the enclosing bound
+        variables), every assumption made inside is generalised:  forall var. guard -> assumption.  Sound because the
+        contracts that create symbols hold for every value of the bound variable."""
+        ctx = self
+
+        class _B:
+            def __enter__(s):
+                ctx.binders.append((var, tob(guard)))
+
+            def __exit__(s, *e):
+                ctx.binders.pop()
+                return False
+        return _B()
+
+    def _bound_apply(self, hint, sort):
+        vars_ = [v for v, _ in self.binders]
+        f = z3.Function(self.fresh_name(hint), *([v.sort() for v in vars_] + [sort]))
+        return f(*vars_)
+
     def fresh_int(self, hint, lo=None, hi=None, size=False):
-        v = SNum(z3.Int(self.fresh_name(hint)))
+        v = SNum(self._bound_apply(hint, z3.IntSort()) if self.binders else z3.Int(self.fresh_name(hint)))
         if lo is not None:
             self.assume(v.t >= to_term(lo), "type")
         if hi is not None:
@@ -534,12 +556,20 @@ class Ctx:
         return v
 
     def fresh_real(self, hint):
+        if self.binders:
+            return SNum(self._bound_apply(hint, z3.RealSort()))
         return SNum(z3.Real(self.fresh_name(hint)))
 
     def fresh_bool(self, hint):
+        if self.binders:
+            return SBool(self._bound_apply(hint, z3.BoolSort()))
         return SBool(z3.Bool(self.fresh_name(hint)))
 
     def fresh_fn(self, hint, *sorts):
+        if self.binders:
+            vars_ = [v for v, _ in self.binders]
+            f = z3.Function(self.fresh_name(hint), *([v.sort() for v in vars_] + list(sorts)))
+            return lambda *a: f(*vars_, *a)
         return z3.Function(self.fresh_name(hint), *sorts)
 
     # -- path condition ----------------------------------------------------------------------------
@@ -550,6 +580,9 @@ class Ctx:
         term = tob(term)
         if z3.is_true(term):
             return
+        if self.binders:
+            vars_ = [v for v, _ in self.binders]
+            term = z3.ForAll(vars_, z3.Implies(z3.And([g for _, g in self.binders]), term))
         self.solver.add(term)
         if has_quantifier(term):
             self.quantified_assumptions.append(term)
@@ -576,6 +609,8 @@ class Ctx:
             return True
         if z3.is_false(cond):
             return False
+        if self.binders and _mentions(cond, [v for v, _ in self.binders]):
+            raise Unsupported("control flow depends on a bound variable (inside a comprehension / quantifier body)")
         if self.pos >= MAX_DECISIONS:
             raise Unsupported(f"more than {MAX_DECISIONS} symbolic decisions on one path (a loop without contract that does not terminate "
                               "on symbolic data?)")
@@ -676,6 +711,24 @@ class Ctx:
 
 
 _HQ = {}
+
+
+def _mentions(term, vars_):
+    ids = {v.get_id() for v in vars_}
+    seen = set()
+    stack = [term]
+    while stack:
+        e = stack.pop()
+        if e.get_id() in seen:
+            continue
+        seen.add(e.get_id())
+        if e.get_id() in ids:
+            return True
+        if z3.is_quantifier(e):
+            stack.append(e.body())
+        elif z3.is_app(e):
+            stack.extend(e.children())
+    return False
 
 
 def has_quantifier(term):
